@@ -77,7 +77,7 @@ def _k1_job(job):
             part.add('C03/K1/parse-error-masked-when-analysis-succeeds', 'a file that fails to parse is ignored when the remaining files analyse successfully: semantic() returns Ok',
                      wit, ('project', (['good' if p else 'bad_syntax' for p in pok],)))
         elif bad_files and any(('parse%d' % i) not in codes for i in bad_files):
-            part.add('C03/K1/parse-diagnostic-dropped', 'semantic() fails but omits the diagnostic of a file that failed to parse (%s)' % codes, wit, None)
+            part.add('C03/K1/parse-diagnostic-dropped', 'semantic() fails but omits the diagnostic of a file that failed to parse (%s)' % codes, wit, ('project', (['good' if p else 'bad_syntax' for p in pok], True)))
         if some_parsed and not aok and (not is_err or 'sem' not in codes):
             part.add('C03/K1/semantic-error-masked', 'analysis diagnostics are not propagated by semantic()', wit, ('project', (['bad_sem' if i == 0 else 'good' for i in range(N)],)))
         seen_by_analysis = [e[1] for e in events if e[0] == 'analyze']
@@ -86,7 +86,7 @@ def _k1_job(job):
             part.add('C03/K1/library-dropped-before-analysis', '%d files parsed but the analysis is given %d libraries (files with equal declarations: %s): declarations of a whole file are never analysed' % (sum(pok), seen_by_analysis[-1], same),
                      dict(wit, equal_files=same), ('project_copies', (N,)))
         if not bad_files and aok and is_err:
-            part.add('C03/K1/spurious-error', 'semantic() fails although every file parsed and analysis succeeded (%s)' % codes, wit, None)
+            part.add('C03/K1/spurious-error', 'semantic() fails although every file parsed and analysis succeeded (%s)' % codes, wit, ('project', (['good'] * N,)))
         # C06-K1: the verdict is a function of the outcomes, not of the hash iteration order
         keyv = (tuple(pok), aok if some_parsed else None)
         if keyv in seen and seen[keyv] != (is_err, sorted(codes)):
@@ -102,12 +102,17 @@ def _k1_job(job):
     return part
 
 @replay_factory('project')
-def _replay_project(kinds):
+def _replay_project(kinds, each_bad_file=False):
     def rp(ctx):
         srcs = [{'good': GOOD, 'bad_syntax': BAD_SYNTAX, 'bad_sem': BAD_SEM}[k] % i for i, k in enumerate(kinds)]
         r = ctx.replay({'cmd': 'check', 'sources': srcs})
         if 'panic' in r: return True, r
         expect_fail = any(k != 'good' for k in kinds)
+        if not expect_fail and not r['ok']: return True, {'kinds': kinds, 'project_semantic_ok': False, 'codes': [d['code'] for d in r.get('diagnostics', [])]}
+        if each_bad_file:
+            named = {d.get('file') for d in r.get('diagnostics', [])}
+            missing = ['f%d.st' % i for i, k in enumerate(kinds) if k == 'bad_syntax' and ('f%d.st' % i) not in named]
+            if missing: return True, {'kinds': kinds, 'files_without_their_diagnostic': missing, 'diagnostics': [(d['code'], d.get('file')) for d in r.get('diagnostics', [])]}
         files = {('f%d.st' % i): s for i, s in enumerate(srcs)}
         rc, out, errt = ctx.ironplcc(['check'], files)
         return (r['ok'] and expect_fail) or (rc == 0 and expect_fail), {'kinds': kinds, 'project_semantic_ok': r['ok'], 'cli_exit': rc, 'cli_stdout': out[:80], 'codes': [d['code'] for d in r.get('diagnostics', [])]}
@@ -292,4 +297,30 @@ def k4(ctx, kr):
     kr.assumptions = ['petgraph toposort / Dfs by contract (deterministic order: the verdict does not depend on it, C06-K2)']
     kr.exhaustive = True
 
-KERNELS = [k1, k3, k4]
+# ---------------------------------------------------------------------------------------------- K5 a valid declaration elsewhere in the unit never hides a rule finding
+@kernel('K5 rules.finding_not_masked_by_other_declarations')
+def k5(ctx, kr):
+    """the C02 rule templates that hold two independent declarations (two POUs, two configurations), in both orders: whenever the documented rule
+    requires a diagnostic for one of them, the rule reports it whatever the other declaration contains (names symbolic)"""
+    from . import C02 as K02
+    K02._CTX = ctx
+    rules = [r for r in K02.RULES if K02.RULES[r].get('swap')]
+    kr.bounds = 'rule templates with two independent declarations ' + str(rules) + ', identifiers symbolic over the template alphabet, both orders of the two declarations: a required diagnostic is never missing'
+    jobs = [(r, sw) for r in rules for sw in (False, True)]
+    for (r, sw), part in zip(jobs, par_map(K02._rule_job, jobs)):
+        spec = K02.RULES[r]
+        fs = []
+        for names, got in part.verdicts.items():
+            want = spec['ref'](list(names))
+            if want and got != 'panic' and not (set(got) & set(want)) and not fs:
+                src = K02._subst_text(spec['text'], list(names))
+                fs.append({'role': 'C03/K5/' + r + '/masked', 'what': 'rule ' + r + ' with names ' + str(list(names)) + (' (declarations exchanged)' if sw else '') + ' reports ' + (str(list(got)) if got else 'nothing') + ' although ' + str(sorted(want)) + ' is required: a finding in one declaration is hidden by the other',
+                           'witness': {'names': list(names), 'source': src}, 'replay': ('rule', (src, sorted(want), r))})
+        part.findings = fs; part.validate = part.validate[:1]
+        merge_part(kr, part)
+    P = ctx.program()
+    kr.functions = fn_paths(P, getattr(kr, '_enc', set()))
+    kr.exhaustive = True
+    kr.outside = ['rules and templates without two independent declarations']
+
+KERNELS = [k1, k3, k4, k5]
